@@ -4,6 +4,7 @@ from fw import Harness
 from llsym import Finding, Sym, PathEnd
 from irparse import IntTy
 i8, i32, i64 = IntTy(8), IntTy(32), IntTy(64)
+CHUNK = 10240
 
 
 def h_bzip2_fd(I, job):
@@ -52,6 +53,9 @@ def h_buffer(I, job):
         c = I.named('csize%d' % k, 8); p = I.named('psize%d' % k, 8)
         I.assume(z3.And(z3.UGE(I.term(c, 8), 1), z3.ULE(I.term(c, 8), 2))); I.assume(z3.And(z3.UGE(I.term(p, 8), job.get('minp', 1)), z3.ULE(I.term(p, 8), 3)))
         cc = I.concretize(c, 'csize'); pc = I.concretize(p, 'psize')
+        if job.get('big'):
+            if cc != 1 or (k == ns - 1 and pc != 1): raise PathEnd()          # the chunk-border job varies only the payload size of the leading streams
+            if k < ns - 1: pc = CHUNK - 2 + pc          # payload that ends just before / exactly at / just after the 10240-byte output chunk of the decompressor
         I.store(cs + 4 * k, i32, cc); I.store(ps + 4 * k, i32, pc); C.append(cc); P.append(pc)
     total = sum(C); size = total
     if job['truncate']:
@@ -104,6 +108,6 @@ def harnesses(tier):
                 bounds='<= 3 streams, read-ahead 1..3, compressed size 1..%d, payload 0..2' % (3 if q else 4), wall=600),
     ]
     for kind, nm in ((0, 'bzip2'), (1, 'gzip')):
-        hs.append(Harness('%s_buffer' % nm, 'decomp', h_buffer, jobs=[dict(kind=kind, streams=n, truncate=False) for n in (1, 2, 3)] + [dict(kind=kind, streams=2, truncate=True)], testgen=gen(1),
-                          desc='%s in-memory decompressor on 1-3 concatenated streams: everything is returned; truncated input -> error' % nm, bounds='<= 3 streams, payload 1..3 bytes; abstract model of the library in the symbolic run, the real library in the native replay'))
+        hs.append(Harness('%s_buffer' % nm, 'decomp', h_buffer, jobs=[dict(kind=kind, streams=n, truncate=False) for n in (1, 2, 3)] + [dict(kind=kind, streams=2, truncate=True), dict(kind=kind, streams=2, truncate=False, big=1)], testgen=gen(1), step_cap=20_000_000,
+                          desc='%s in-memory decompressor on 1-3 concatenated streams: everything is returned; truncated input -> error' % nm, bounds='<= 3 streams, payload 1..3 bytes, or 10239..10241 bytes (stream ends around the border of the 10240-byte output chunk); abstract model of the library in the symbolic run, the real library in the native replay'))
     return hs
